@@ -334,7 +334,8 @@ class Emitter:
             s = self.static_init(ctx, init[0])
             if ctx.pre:
                 raise LowerError('global %s needs dynamic initialisation' % cname)
-            out.append('%s = %s;' % (lw.ctype(t, cname), s))
+            const = 'const ' if (qt(best).strip().startswith('const ') and not lw.cfg.get('abstract_tables')) else ''
+            out.append('%s%s = %s;' % (const, lw.ctype(t, cname), s))
         return out
 
     def static_init(self, ctx, n):
